@@ -254,6 +254,10 @@ type c16Env struct {
 	dialer  *bhost.BlankHost
 	ps      peerstore.Peerstore
 	dialOK  bool
+	// dialHang: every transport dial takes this long (virtual time) before it answers; dialing counts the dials
+	// that are in that phase, per dialled address
+	dialHang time.Duration
+	dialing  map[string]int
 	mu      sync.Mutex
 	dials   []c16Dial
 	backs   []c16DialBack
@@ -284,7 +288,25 @@ func (t *c16Tpt) Dial(ctx context.Context, raddr ma.Multiaddr, p peer.ID) (trans
 		c = &c16DialConn{env: e, tpt: t, remote: p, raddr: raddr, closeCh: make(chan struct{})}
 		e.conns = append(e.conns, c)
 	}
+	hang := e.dialHang
+	if hang > 0 {
+		if e.dialing == nil {
+			e.dialing = map[string]int{}
+		}
+		e.dialing[raddr.String()]++
+	}
 	e.mu.Unlock()
+	if hang > 0 {
+		tm := time.NewTimer(hang)
+		select {
+		case <-tm.C:
+		case <-ctx.Done():
+			tm.Stop()
+		}
+		e.mu.Lock()
+		e.dialing[raddr.String()]--
+		e.mu.Unlock()
+	}
 	if c == nil {
 		return nil, c16ErrDial
 	}
